@@ -741,7 +741,7 @@ class StarSet(object):
 
 def zeroclean(x, threshold=1e-8):
     """Modify x in place, return 0 if x is below a threshold; useful for "symmetrizing" our expansions"""
-    for v in np.nditer(x, op_flags=['readwrite']):
+    for v in np.nditer(x, flags=['zerosize_ok'], op_flags=['readwrite']):
         if abs(v) < threshold: v[...] = 0
     return x
 
